@@ -2256,7 +2256,10 @@ func checkLaunchErrorClasses(c *report.Ctx) {
 		if len(e.Vals) != 1 {
 			continue
 		}
-		s, _ := an.ConstString(e.Vals[0])
+		s, isConst := an.ConstString(e.Vals[0])
+		if !isConst {
+			continue
+		}
 		cond := "otherwise"
 		if facts.Holds(e.Ret.Block(), isPerm) {
 			cond = "os.IsPermission"
@@ -2265,6 +2268,85 @@ func checkLaunchErrorClasses(c *report.Ctx) {
 		}
 		got[cond] = s
 	}
+	// the same classification written as a package-level table of {predicate, class} rows consulted in order
+	if got["os.IsPermission"] == "" && got["ErrTooManyExtensions"] == "" {
+		for _, row := range globalTableRows(c, coreP, f) {
+			var pred *ssa.Function
+			cls := ""
+			for _, v := range row {
+				switch x := an.Strip(v, false).(type) {
+				case *ssa.Function:
+					pred = x
+				case *ssa.MakeClosure:
+					pred, _ = x.Fn.(*ssa.Function)
+				}
+				if s, isC := an.ConstString(v); isC {
+					cls = s
+				}
+			}
+			if pred == nil || cls == "" {
+				continue
+			}
+			if pred.String() == "os.IsPermission" {
+				got["os.IsPermission"] = cls
+				continue
+			}
+			an.AllInstrs(pred, func(in ssa.Instruction) {
+				if bo, isB := in.(*ssa.BinOp); isB && bo.Op == token.EQL && (an.GlobalOf(bo.Y) == "L/core.ErrTooManyExtensions" || an.GlobalOf(bo.X) == "L/core.ErrTooManyExtensions") {
+					got["ErrTooManyExtensions"] = cls
+				}
+			})
+		}
+	}
 	ok := got["os.IsPermission"] == konst("PermissionDenied") && got["ErrTooManyExtensions"] == konst("TooManyExtensions") && got["otherwise"] == konst("UnknownError")
 	c.Check("R-GUARD", an.FuncName(f)+"/classes", "a launch error is reported as PermissionDenied exactly when os.IsPermission says so, as TooManyExtensions exactly for that sentinel, as UnknownError otherwise", ok, fpos(f), len(got), "decoded: %v", got)
+}
+
+// globalTableRows: the rows of a package-level array literal that f indexes in a loop: for each constant index,
+// the values the package initialiser stores into the element's fields.
+func globalTableRows(c *report.Ctx, pkg string, f *ssa.Function) [][]ssa.Value {
+	var g *ssa.Global
+	an.AllInstrs(f, func(in ssa.Instruction) {
+		if ia, ok := in.(*ssa.IndexAddr); ok && an.InLoop(in) {
+			if gl, isG := ia.X.(*ssa.Global); isG {
+				g = gl
+			}
+		}
+	})
+	if g == nil {
+		return nil
+	}
+	rows := map[int64][]ssa.Value{}
+	for _, fn := range []*ssa.Function{g.Pkg.Func("init")} {
+		if fn == nil {
+			continue
+		}
+		an.AllInstrs(fn, func(in ssa.Instruction) {
+			st, ok := in.(*ssa.Store)
+			if !ok {
+				return
+			}
+			fa, ok := st.Addr.(*ssa.FieldAddr)
+			if !ok {
+				return
+			}
+			ia, ok := fa.X.(*ssa.IndexAddr)
+			if !ok || ia.X != ssa.Value(g) {
+				return
+			}
+			if k, isC := an.ConstInt(ia.Index); isC {
+				rows[k] = append(rows[k], st.Val)
+			}
+		})
+	}
+	var keys []int64
+	for k := range rows {
+		keys = append(keys, k)
+	}
+	sort.Slice(keys, func(i, j int) bool { return keys[i] < keys[j] })
+	var out [][]ssa.Value
+	for _, k := range keys {
+		out = append(out, rows[k])
+	}
+	return out
 }
